@@ -112,7 +112,7 @@ Definition race_thread (cr : N) (v : tval) : rlocal :=
   let who := vn (vnth 0 v) in
   request_thread cr {| c_registered := negb (N.eqb who 0); c_client := h_client who |} (h_req (vn (vnth 1 v)) (vn (vnth 2 v)) 2).
 Definition race_model (v : tval) : list N :=
-  let rv := {| late_agree := vbool (vnth 1 (vnth 1 v)); source_reattach := vbool (vnth 2 (vnth 1 v)) |} in
+  let rv := {| late_agree := vbool (vnth 1 (vnth 1 v)); source_reattach := vbool (vnth 2 (vnth 1 v)); refetch_existing := false |} in
   let k := vn (vnth 0 (vnth 4 v)) in
   let sched := (if N.eqb k 0 then [1; 1; 0; 0] else if N.eqb k 1 then [1; 0; 0; 1] else [0; 0; 1; 1])%nat in
   let s := rrun rv h_db0 (rinit [race_thread 1 (vnth 2 v); race_thread 2 (vnth 3 v)]) sched in
@@ -120,6 +120,19 @@ Definition race_model (v : tval) : list N :=
   | Some b => [b_mid b; optn (b_src b); optn (b_tgt b)]
   | None => [0; 0; 0]
   end.
+(* bridge replacement: [ variant ; [96; late_agree] ; A ; B ; PRE ; [ended] ; [mid_end; src; tgt] ]
+   PRE (connection 3) opens tunnel 9 first; B (connection 2) does its lookup and is parked at its ack write; with ended = 1 the
+   bridge then ends; A (connection 1) runs to completion; B is released *)
+Definition repl_model (v : tval) : list N :=
+  let rv := {| late_agree := vbool (vnth 1 (vnth 1 v)); source_reattach := false; refetch_existing := false |} in
+  let sched := (if vbool (vnth 0 (vnth 5 v)) then [2; 2; 1; 3; 0; 0; 1] else [2; 2; 1; 0; 0; 1])%nat in
+  let s := rrun rv h_db0 (rinit [race_thread 1 (vnth 2 v); race_thread 2 (vnth 3 v); race_thread 3 (vnth 4 v); end_thread 9]) sched in
+  match sh_tun (fst s) 9 with
+  | Some b => [b_mid b; optn (b_src b); optn (b_tgt b)]
+  | None => [0; 0; 0]
+  end.
+Definition is_repl (v : tval) : bool := N.eqb (vn (vnth 0 (vnth 1 v))) 96.
+Definition check_repl (v : tval) : bool := nlist_eqb (repl_model v) (map vn (vl (vnth 6 v))).
 Definition is_race (v : tval) : bool := N.eqb (vn (vnth 0 (vnth 1 v))) 98.
 Definition check_race (v : tval) : bool := nlist_eqb (race_model v) (map vn (vl (vnth 5 v))).
 Close Scope N_scope.
@@ -146,11 +159,11 @@ Definition check_cross (v : tval) : bool := nlist_eqb (cross_model v) (map vn (v
 Close Scope N_scope.
 
 Definition check (v : tval) : bool :=
-  if is_hist v then check_hist v else if is_race v then check_race v else if is_cross v then check_cross v else
+  if is_hist v then check_hist v else if is_race v then check_race v else if is_cross v then check_cross v else if is_repl v then check_repl v else
   let '((ack, role), ent) := model_obs v in
   let o := vnth 2 v in
   N.eqb ack (vn (vnth 0 o)) && N.eqb role (vn (vnth 1 o)) && Bool.eqb ent (vbool (vnth 2 o)).
 
 Definition predict (v : tval) : tval :=
-  if is_hist v then predict_hist v else if is_race v then VL (map VN (race_model v)) else if is_cross v then VL (map VN (cross_model v)) else
+  if is_hist v then predict_hist v else if is_race v then VL (map VN (race_model v)) else if is_cross v then VL (map VN (cross_model v)) else if is_repl v then VL (map VN (repl_model v)) else
   let '((ack, role), ent) := model_obs v in VL [VN ack; VN role; vN_of_bool ent].
